@@ -11,7 +11,9 @@ EventsProcessor / Handler / every registered Stream before and after.
 Model side (the tie): each observed data_received call becomes one line for build/model_C12
 (pre-state, h2's verdict) and the model's post-state, returned credit and exception are compared
 with the real ones; the invariants under which the totality theorems are proved are evaluated on
-every real pre-state; the h2 discipline the theorems assume is checked on every event trace.
+every real pre-state; event_wf (the only hypothesis of the totality theorems) and the freshness of
+request stream ids (the domain on which the model keys handler tasks by stream id) are checked on
+every event trace.
 
 Direct oracle: the property statement itself (see oracle()), independent of the model.
 
@@ -36,15 +38,17 @@ THEOREM_FILES = ['Props/C12.v']
 ALLOWED_AXIOMS = []
 LABEL = ('partial: theorems (totality, tolerance, orderly shutdown) hold from the h2-event boundary up, '
          'for the dispatch table regenerated from the source; bytes -> events is hyper-h2 (modelled, '
-         'not verified) and is covered by fuzz-style correspondence only; client totality is refuted '
-         '(RequestReceived on a client) and proved for every history without that event')
+         'not verified) and is covered by fuzz-style correspondence only')
 TRUSTED = ['modelled, not verified: hyper-h2 4.3.0 / hyperframe / hpack turn bytes into events or raise '
-           'ProtocolError; h2 emits at most one StreamReset and one RequestReceived per stream id and '
-           'non-negative lengths (checked on every observed event trace)',
+           'ProtocolError; h2 emits one RequestReceived per stream id (domain on which keying handler '
+           'tasks by stream id is exact) and non-negative lengths (checked on every observed event trace)',
            'hand transcription of the 13 process_* methods, EventsProcessor.close/process, '
            'Connection.close/ack, client and server Handler.accept/cancel/close into Model/Dispatch.v '
            '(tied by the per-call state correspondence)',
-           'handler tasks are keyed by stream id in the model (exact while request stream ids are not reused)']
+           'handler tasks are keyed by stream id in the model (exact while request stream ids are not reused)',
+           'h2 state read by Stream.closable while a batch is processed: connection CLOSED iff a '
+           'ConnectionTerminated comes later in the same batch, stream closed iff a StreamReset for it does '
+           '(tied by comparing the h2.reset_stream calls of every batch with the model)']
 ASSUMPTIONS = ['the transport delivers no data after transport.close() (asyncio selector and SSL '
                'transports); if it did, H2Protocol.data_received would raise AttributeError from the '
                'h2 connection whose _frame_dispatch_table Connection.close() deleted (measured, see '
@@ -236,6 +240,36 @@ def gen_any(rng, end, phase):
         return fr(rand_bytes(rng, n), False, 'raw random bytes (%d)' % n, framed=False)
     req = list(P.REQ_HEADERS)
     resp = list(P.RESP_HEADERS)
+    if end == 'client' and r < 0.50:
+        # a stream the peer opens towards a client, followed IN THE SAME CHUNK by 1-4 more frames on it
+        # or on the connection (h2 has digested them all before accept() looks at the stream)
+        n2 = ids['new_peer']
+        pool2 = [
+            ('RST', P.frame_bytes(0x3, 0, n2, struct.pack('>I', rng.choice([0, 7, 8])))),
+            ('DATA', P.data_frame(n2, b'dd')),
+            ('DATA+ES', P.data_frame(n2, b'dd', end_stream=True)),
+            ('empty DATA+ES', P.data_frame(n2, b'', end_stream=True)),
+            ('trailers+ES', headers_frame(n2, [('a', 'b')], end_stream=True)),
+            ('HEADERS again', headers_frame(n2, req)),
+            ('WU', P.frame_bytes(0x8, 0, n2, struct.pack('>I', 5))),
+            ('WU overflow', P.frame_bytes(0x8, 0, n2, struct.pack('>I', 0x7fffffff))),
+            ('WU 0', P.frame_bytes(0x8, 0, n2, struct.pack('>I', 0))),
+            ('GOAWAY', P.frame_bytes(0x7, 0, 0, struct.pack('>II', rng.choice([0, n2]), 0))),
+            ('PRIORITY', P.frame_bytes(0x2, 0, n2, struct.pack('>IB', 0, 3))),
+            ('unknown', P.frame_bytes(0x4f, 0xff, n2, b'u')),
+            ('PUSH_PROMISE', P.frame_bytes(0x5, 0x4, n2, struct.pack('>I', n2 + 2) + hpack_block(req))),
+            ('HEADERS next', headers_frame(n2 + 2, req, end_stream=rng.random() < 0.5)),
+            ('RST next', P.frame_bytes(0x3, 0, n2 + 2, struct.pack('>I', 8))),
+            ('SETTINGS iws 0', P.frame_bytes(0x4, 0, 0, struct.pack('>HI', 4, 0))),
+            ('PING', P.frame_bytes(0x6, 0, 0, b'12345678')),
+            ('RST V', P.frame_bytes(0x3, 0, V, struct.pack('>I', 8))),
+        ]
+        picks = [rng.choice(pool2) for _ in range(rng.randint(1, 4))]
+        first = headers_frame(n2, req if rng.random() < 0.7 else resp, end_stream=rng.random() < 0.3,
+                              pad=rng.choice([None, None, 5]))
+        return fr(first + b''.join(b for _, b in picks), False,
+                  'peer-opened stream %d, then in the same chunk: %s' % (n2, ', '.join(d for d, _ in picks)),
+                  glob=any(d.startswith('SETTINGS') for d, _ in picks))
     special = [
         lambda: fr(P.frame_bytes(0x8, 0, rng.choice([0, V]), struct.pack('>I', 0)), False, 'WINDOW_UPDATE 0'),
         lambda: fr(P.frame_bytes(0x8, 0, rng.choice([0, V]), struct.pack('>I', 0x7fffffff)), False,
@@ -272,6 +306,26 @@ def gen_any(rng, end, phase):
         lambda: fr(headers_frame(ids['new_peer'], resp), False,
                    'HEADERS opening a peer-initiated stream (response headers)'),
         lambda: fr(headers_frame(ids['new_own'], req), False, 'HEADERS on an idle stream of our own parity'),
+        lambda: fr(headers_frame(ids['new_peer'], req) + P.frame_bytes(0x7, 0, 0, struct.pack('>II', 0, 0)),
+                   False, 'HEADERS opening a peer-initiated stream, then GOAWAY'),
+        lambda: fr(headers_frame(ids['new_peer'], req) +
+                   P.frame_bytes(0x3, 0, ids['new_peer'], struct.pack('>I', 8)), False,
+                   'HEADERS opening a peer-initiated stream, then RST_STREAM on it'),
+        lambda: fr(headers_frame(ids['new_peer'], req, end_stream=True) + P.data_frame(ids['new_peer'], b'zz'),
+                   False, 'HEADERS+END_STREAM opening a peer-initiated stream, then DATA on it (stream error)'),
+        lambda: fr(headers_frame(ids['new_peer'], req) +
+                   P.frame_bytes(0x8, 0, ids['new_peer'], struct.pack('>I', 0x7fffffff)), False,
+                   'HEADERS opening a peer-initiated stream, then WINDOW_UPDATE overflow on it'),
+        lambda: fr(headers_frame(ids['new_peer'], req) + headers_frame(ids['new_peer'], [('a', 'b')]), False,
+                   'HEADERS opening a peer-initiated stream, then HEADERS without END_STREAM on it'),
+        lambda: fr(headers_frame(ids['new_peer'], req) +
+                   headers_frame(ids['new_peer'], [('a', 'b')], end_stream=True) +
+                   P.frame_bytes(0x3, 0, ids['new_peer'], struct.pack('>I', 0)), False,
+                   'peer-initiated stream opened, ended with trailers and reset in one chunk'),
+        lambda: fr(headers_frame(ids['new_peer'], req) + P.data_frame(ids['new_peer'], b'x' * 30) +
+                   headers_frame(ids['new_peer'] + 2, req, end_stream=True) +
+                   P.frame_bytes(0x3, 0, ids['new_peer'], struct.pack('>I', 2)), False,
+                   'two peer-initiated streams with DATA, the first reset, in one chunk'),
         lambda: fr(headers_frame(ids['huge_peer'], req), False, 'HEADERS opening the largest stream id'),
         lambda: fr(headers_frame(ids['F'], resp), False, 'HEADERS on the finished stream'),
         lambda: fr(headers_frame(V, [], block=rand_bytes(rng, rng.choice([1, 5, 20]))), False,
@@ -449,11 +503,13 @@ class Probe:
         self.raises = []
         self.seen_resets = []
         self.seen_requests = []
+        self.repeated_resets = 0
         self.discipline = []
         self.undelivered = 0
         conn = proto.connection._connection
         orig_recv = conn.receive_data
         orig_ack = conn.acknowledge_received_data
+        orig_rst = conn.reset_stream
 
         def receive_data(data):
             try:
@@ -475,8 +531,14 @@ class Probe:
                 self.cur['credit'].append((stream_id, size))
             return orig_ack(size, stream_id)
 
+        def reset_stream(stream_id, *a, **kw):
+            if self.cur is not None:
+                self.cur['rst'].append(stream_id)
+            return orig_rst(stream_id, *a, **kw)
+
         conn.receive_data = receive_data
         conn.acknowledge_received_data = acknowledge_received_data
+        conn.reset_stream = reset_stream
 
     # -- state of EventsProcessor / Handler / Streams, in the vocabulary of Model/Dispatch.v
     def snap(self):
@@ -541,7 +603,7 @@ class Probe:
                 self.undelivered += len(chunk)
                 continue
             self.cur = {'pre': self.snap(), 'events': None, 'h2err': False, 'h2raise': None,
-                        'credit': [], 'raised': None, 'seen': list(self.seen_resets), 'nbytes': len(chunk)}
+                        'credit': [], 'rst': [], 'raised': None, 'seen': list(self.seen_resets), 'nbytes': len(chunk)}
             try:
                 self.proto.data_received(chunk)
             except BaseException as e:        # noqa -- this is the thing that must never happen
@@ -569,7 +631,7 @@ class Probe:
             n = type(ev).__name__
             if n == 'StreamReset':
                 if ev.stream_id in self.seen_resets:
-                    self.discipline.append('second StreamReset for stream %d' % ev.stream_id)
+                    self.repeated_resets += 1       # tolerated since Handler.cancel pops with a default
                 self.seen_resets.append(ev.stream_id)
             elif n == 'RequestReceived':
                 if ev.stream_id in self.seen_requests:
@@ -628,20 +690,21 @@ def enc_state(s):
 def model_line(b):
     if b['h2err']:
         batch = 'P'
+    elif b['h2raise'] == 'UnicodeDecodeError':
+        batch = 'U'
     else:
         evs = b['events'] or []
         batch = 'E %d %s' % (len(evs), ' '.join(enc_event(e) for e in evs))
-    return 'B %d %s S %s X %s' % (len(b['seen']), ' '.join(str(x) for x in b['seen']),
-                                  enc_state(b['pre']), batch.strip())
+    return 'B S %s X %s' % (enc_state(b['pre']), batch.strip())
 
 
 def parse_model(ans):
     w = ans.split()
-    out = {'inv': w[0] == '1', 'sinv': w[1] == '1', 'wf': w[2] == '1'}
-    if w[3] == 'raises':
-        out['raises'] = w[4]
+    out = {'inv': w[0] == '1', 'wf': w[1] == '1'}
+    if w[2] == 'raises':
+        out['raises'] = w[3]
         return out
-    it = iter(w[4:])
+    it = iter(w[3:])
 
     def nx():
         return int(next(it))
@@ -660,6 +723,8 @@ def parse_model(ans):
     out['state'] = s
     assert next(it) == 'C'
     out['credit'] = [(nx(), nx()) for _ in range(nx())]
+    assert next(it) == 'R'
+    out['rst'] = [nx() for _ in range(nx())]
     assert next(it) == 'D'
     out['shut'] = next(it)
     return out
@@ -702,6 +767,16 @@ def _post_close_probe(probe):
         return 'ok'
     except BaseException as e:      # noqa
         return type(e).__name__
+
+
+def _settle(loop, peer, send):
+    """deliver what the scripted peer still has to say (e.g. the GOAWAY of its own h2 when the endpoint
+    reset a stream the peer's h2 never knew) and give the endpoint 1 s after the LAST delivery"""
+    for _ in range(6):
+        send()
+        loop.run_quiet(1.0)
+        if not len(peer.h2._data_to_send):      # nothing more queued in the peer's h2
+            break
 
 
 def _run_client(loop, case, obs):
@@ -761,9 +836,7 @@ def _run_client(loop, case, obs):
         if step.get('run') is not None:
             loop.run_quiet(step['run'])
             send()
-    send()
-    loop.run_quiet(1.0)
-    send()
+    _settle(loop, peer, send)
     obs['closed'] = bool(ce.transport.closing or ce.transport.lost)
     obs['done_before_close'] = {k: t.done() for k, t in tasks.items()}
     loop.run_quiet(60)
@@ -830,9 +903,7 @@ def _run_server(loop, case, obs):
         if step.get('run') is not None:
             loop.run_quiet(step['run'])
             send()
-    send()
-    loop.run_quiet(1.0)
-    send()
+    _settle(loop, peer, send)
     obs['closed'] = bool(se.transport.closing or se.transport.lost)
     h = se.proto.handler
     obs['done_before_close'] = {'handlers': all(t.done() for t in list(h._tasks.values()) + list(h._cancelled))}
@@ -884,8 +955,9 @@ def _collect(probe, obs, n_pre):
     obs['raises'] = probe.raises
     obs['batches'] = probe.batches
     obs['discipline'] = probe.discipline
+    obs['repeated_resets'] = probe.repeated_resets
     obs['undelivered'] = probe.undelivered
-    obs['h2err'] = any(b['h2err'] for b in probe.batches)
+    obs['h2err'] = any(b['h2err'] or b['h2raise'] == 'UnicodeDecodeError' for b in probe.batches)
     cls = set()
     for b in probe.batches[n_pre:]:
         for e in b['events'] or []:
@@ -1002,13 +1074,24 @@ def check(ctx, res, cases):
             res.oracle_failures.append({'case': slim(case), 'what': what, 'signature': sig,
                                         'observed': {'outcomes': obs['outcomes'], 'closed': obs['closed'],
                                                      'raises': obs['raises'], 'h2_events': obs['evclasses']}})
+        if obs.get('repeated_resets'):
+            res.count('h2: repeated StreamReset for one stream (tolerated)', obs['repeated_resets'])
         for d in obs['discipline']:
-            res.disagreements.append({'case': slim(case), 'model': 'h2 discipline assumed by the theorems',
+            res.disagreements.append({'case': slim(case), 'model': 'event_wf / fresh request ids assumed of h2',
                                       'impl': d})
         for bi, b in enumerate(obs['batches']):
-            if b['h2raise']:
+            if b['h2raise'] and not (b['h2raise'] == 'UnicodeDecodeError' and b['raised'] is None):
+                # h2 raised something that is neither a ProtocolError nor the UnicodeDecodeError that
+                # data_received handles: below the model, judged by the oracle only
                 res.count('batch:raise-below-the-model:' + b['h2raise'])
                 continue
+            if b['h2raise']:
+                res.count('batch:h2-UnicodeDecodeError-handled')
+            if obs['end'] == 'client' and b['raised'] is None:
+                nreq = sum(1 for e in b['events'] or [] if type(e).__name__ == 'RequestReceived')
+                if nreq:
+                    res.count('client:peer-opened stream refused with RST_STREAM', len(b['rst']))
+                    res.count('client:peer-opened stream refused silently (not closable)', nreq - len(b['rst']))
             lines.append(model_line(b))
             refs.append((case, obs, bi, b))
     if not ctx.model_ok or not lines:
@@ -1022,9 +1105,10 @@ def check(ctx, res, cases):
         m = parse_model(ans)
         bad = None
         res.count('model:' + ('raises' if 'raises' in m else ('h2-protocol-error' if b['h2err'] else
+                                                             'h2-unicode-error' if b['h2raise'] else
                                                              'events:%d' % min(len(b['events'] or []), 5))))
-        if not m['inv'] or (obs['end'] == 'server' and not m['sinv']):
-            bad = ('invariant of the totality theorems false in a real pre-state', m)
+        if not m['inv']:
+            bad = ('invariant of the totality theorems (inv_b) false in a real pre-state', m)
         elif not m['wf']:
             bad = ('event_wf false of a real h2 event', m)
         elif 'raises' in m:
@@ -1038,23 +1122,26 @@ def check(ctx, res, cases):
                 bad = ('post-state differs', diff)
             elif m['credit'] != b['credit']:
                 bad = ('returned credit differs', (m['credit'], b['credit']))
+            elif m['rst'] != b['rst']:
+                bad = ('reset_stream calls differ (closable as modelled vs the real h2 state)',
+                       (m['rst'], b['rst']))
             elif m['shut'] == '0':
                 bad = ('model: closing batch did not shut everything down', m['state'])
         if bad:
             res.disagreements.append({'case': slim(case), 'model': {'what': bad[0], 'detail': bad[1]},
                                       'impl': {'batch': bi, 'events': [type(e).__name__ for e in b['events'] or []],
                                                'h2err': b['h2err'], 'raised': b['raised'], 'pre': b['pre'],
-                                               'post': b['post'], 'credit': b['credit']}})
+                                               'post': b['post'], 'credit': b['credit'], 'rst': b['rst']}})
     return all_obs
 
 
 def replay_witnesses(res):
     """the Coq refutation witnesses on the real code.
-    (a) client_witness: RequestReceived on a client -- through bytes (HEADERS opening stream 2);
-        goes through the normal oracle as a corpus case, nothing to do here.
+    (a) the former client witnesses (RequestReceived on a client, alone / followed by GOAWAY or by a
+        reset of the stream in the same chunk) no longer raise; they are corpus cases.
     (b) server_witness: a second StreamReset for the same stream -- h2 never emits it, so it is
-        injected below h2, straight into the real EventsProcessor; expected: KeyError (the model's
-        EKeyError).  This is a latent fragility, not reachable through h2; recorded as a count."""
+        injected below h2, straight into the real EventsProcessor; it used to raise KeyError in
+        server.Handler.cancel and is tolerated now (pop with a default), as the model says."""
     from h2.events import StreamReset
     with vloop.session() as loop:
         se = wire.ServerEnd(loop, [Service('v.S', {'M': (_handler, 'UU')})])
@@ -1075,9 +1162,9 @@ def replay_witnesses(res):
         except BaseException as e:       # noqa
             got.append('raise:' + type(e).__name__)
         res.count('witness:server double StreamReset below h2:' + ','.join(got))
-        if got != ['first:ok', 'raise:KeyError']:
+        if got != ['first:ok', 'second:ok']:
             res.disagreements.append({'case': {'witness': 'server_witness'},
-                                      'model': 'Raises EKeyError on the second StreamReset',
+                                      'model': 'the second StreamReset is tolerated',
                                       'impl': got})
 
 
@@ -1126,14 +1213,16 @@ def replay(ctx, case):
 
 THEOREM_STATUS = {
     'C12_source_table': 'full', 'C12_source_shape': 'full',
-    'C12_server_total': 'full from the event boundary (hypothesis: h2 discipline, checked at run time)',
-    'C12_server_batch_total': 'full from the event boundary (same hypothesis)',
-    'C12_server_total_without_h2_discipline_refuted': 'refuted (latent: unreachable through h2 4.3.0)',
-    'C12_client_total_refuted': 'refuted (FINDING: RequestReceived on a client raises NotImplementedError)',
-    'C12_client_total_partial': 'partial (histories without RequestReceived)',
-    'C12_client_batch_total_partial': 'partial (batches without RequestReceived)',
+    'C12_endpoint_total': 'full from the event boundary (either endpoint, every history, every event kind; '
+                          'only hypothesis: event_wf, checked on every real event)',
+    'C12_server_total': 'full (no h2 discipline needed any more)', 'C12_client_total': 'full',
+    'C12_batch_total': 'full (any state with inv_b)',
+    'C12_late_reset_tolerated': 'full (was C12_server_total_without_h2_discipline_refuted)',
+    'C12_closable_reset_cannot_raise': 'full (h2 model: GOAWAY / reset later in the batch = CLOSED)',
+    'C12_client_request_refused': 'full',
     'C12_tolerated_ignored': 'full', 'C12_tolerated_anywhere': 'full', 'C12_ping_ack_only_timer': 'full',
     'C12_unregistered_stream_tolerated': 'full', 'C12_protocol_error_shuts_down': 'full',
+    'C12_undecodable_headers_shut_down': 'full',
     'C12_connection_lost_shuts_down': 'full', 'C12_closing_batch_shuts_down': 'full',
     'C12_goaway_mid_batch': 'full', 'C12_closed_ignores_all': 'full',
 }
